@@ -364,7 +364,7 @@ func configureDefaultCustomAdapters(git Env, m *concreteManifest) {
 func configureCustomAdapters(git Env, m *concreteManifest) {
 	configureDefaultCustomAdapters(git, m)
 
-	pathRegex := regexp.MustCompile(`lfs.customtransfer.([^.]+).path`)
+	pathRegex := regexp.MustCompile(`^lfs\.customtransfer\.([^.]+)\.path$`)
 	for k, _ := range git.All() {
 		match := pathRegex.FindStringSubmatch(k)
 		if match == nil {
